@@ -397,9 +397,9 @@ def _distinct(s):
 
 FACETS = [
     Facet("simulated-workers", check, strategy=lambda tier: stack(tier).filter(_distinct),
-          budget={"quick": 1500, "thorough": 20000}, shards={"quick": 12, "thorough": 16},
+          budget={"quick": 3600, "thorough": 20000}, shards={"quick": 12, "thorough": 16},
           min_nontrivial={"quick": 300, "thorough": 3000}, case_timeout=300),
     Facet("real-workers", check_real_workers, strategy=lambda tier: stack(tier, for_real=True),
-          budget={"quick": 24, "thorough": 300}, shards={"quick": 4, "thorough": 12},
+          budget={"quick": 64, "thorough": 300}, shards={"quick": 8, "thorough": 12},
           min_nontrivial={"quick": 8, "thorough": 100}, case_timeout=300),
 ]
